@@ -57,6 +57,17 @@ Definition page_modify (p : pagest) (off : nat) (c : list Z) : pres pagest :=
        | None => PErr EInvalidOp
        end.
 
+(* Page.MarkDirty (with the repair of D35: a page whose contents were never loaded has no buffer that could be written
+   back; it is loaded first. Before the repair the page became dirty without a buffer and the commit wrote nothing
+   into its new location: page_mark_dirty_v1) *)
+Definition page_mark_dirty (pageSize : nat) (p : pagest) : pres pagest :=
+  if negb (can_write p) then PErr EInvalidOp
+  else
+    let p1 := match pg_bytes p with None => load_bytes pageSize p | Some _ => p end in
+    POk (set_flags p1 (fl_dirty (pg_flags p1))).
+Definition page_mark_dirty_v1 (p : pagest) : pres pagest :=
+  if negb (can_write p) then PErr EInvalidOp else POk (set_flags p (fl_dirty (pg_flags p))).
+
 (* Page.Bytes *)
 Definition page_bytes (p : pagest) : pres (list Z) :=
   match pg_bytes p with
